@@ -36,6 +36,26 @@ namespace ip {
 		, m_timer(ios)
 	{}
 
+	// pending lookups are completed with operation_aborted, like cancel()
+	template<typename Protocol>
+	basic_resolver<Protocol>::~basic_resolver()
+	{
+		if (m_alive) *m_alive = false;
+		cancel();
+	}
+
+	template<typename Protocol>
+	void basic_resolver<Protocol>::arm_timer()
+	{
+		m_timer.expires_at(m_queue.front().completion_time);
+		std::shared_ptr<bool> alive = m_alive;
+		m_timer.async_wait(aux::make_malloc([this, alive](boost::system::error_code const& ec)
+		{
+			if (!*alive) return;
+			on_lookup(ec);
+		}));
+	}
+
 	template<typename Protocol>
 	basic_resolver<Protocol>::basic_resolver(basic_resolver<Protocol>&&) noexcept = default;
 
@@ -77,8 +97,7 @@ namespace ip {
 			auto const pos = std::find_if(m_queue.begin(), m_queue.end()
 				, [t](result_t const& r) { return r.completion_time > t; });
 			m_queue.insert(pos, std::move(res));
-			m_timer.expires_at(m_queue.front().completion_time);
-			m_timer.async_wait(aux::make_malloc(std::bind(&basic_resolver::on_lookup, this, _1)));
+			arm_timer();
 			return;
 		}
 		ec.clear();
@@ -103,8 +122,7 @@ namespace ip {
 		result_t res{ completion_time, ec, std::move(ips), std::move(handler)};
 		m_queue.emplace_back(std::move(res));
 
-		m_timer.expires_at(m_queue.front().completion_time);
-		m_timer.async_wait(aux::make_malloc(std::bind(&basic_resolver::on_lookup, this, _1)));
+		arm_timer();
 	}
 
 	template<typename Protocol>
@@ -118,8 +136,7 @@ namespace ip {
 		// fired but before this handler ran. The front entry is not due yet
 		if (m_queue.front().completion_time > chrono::high_resolution_clock::now())
 		{
-			m_timer.expires_at(m_queue.front().completion_time);
-			m_timer.async_wait(aux::make_malloc(std::bind(&basic_resolver::on_lookup, this, _1)));
+			arm_timer();
 			return;
 		}
 
@@ -132,8 +149,7 @@ namespace ip {
 		// (basic_resolver) alive, so no member may be touched after the call.
 		if (!m_queue.empty())
 		{
-			m_timer.expires_at(m_queue.front().completion_time);
-			m_timer.async_wait(aux::make_malloc(std::bind(&basic_resolver::on_lookup, this, _1)));
+			arm_timer();
 		}
 
 		v.handler(v.err, std::move(v.ips));
